@@ -26,7 +26,9 @@ EXHAUSTIVE_BLOCKS = ["N in {0,1,2} x one node property over every dtype x rank {
 ASSUMPTIONS = ["zarr codecs/chunking and numpy byte representation are trusted: the model's store holds decoded arrays (harness/storelib.dump_tree)",
                "validity of a metadata document is decided by geff_spec.GeffMetadata.model_validate (modelled in C07)",
                "string payloads and non-dyadic / non-finite floats are opaque tokens in the model (never compared or ordered there)",
-               "property names containing '/' or control characters are outside the model (oracle-only)"]
+               "property names containing '/' or control characters are outside the model (oracle-only)",
+               "key level (every third random case): the raw keys after the write are abstracted inside Coq (KeyStore.v) and must equal the dumped tree; "
+               "chunk bytes are decoded by the harness (numcodecs + numpy.frombuffer); chunk encoding itself stays trusted"]
 
 STORE_KINDS = ["mem", "local", "path", "str"]
 
